@@ -23,6 +23,7 @@ import traceback
 
 VERIF = os.path.dirname(os.path.dirname(os.path.abspath(__file__)))
 REPO = os.environ.get("VERIF_REPO", "/repo")
+OUT = os.environ.get("VERIF_OUT", VERIF)   # where evidence/ and replays/ go (evaluation of changed copies writes elsewhere)
 JARS = "/opt/veriftools/tla/tla2tools.jar:/opt/veriftools/tla/CommunityModules-deps.jar"
 GOENV = {
     "GOFLAGS": "-mod=mod",
@@ -81,7 +82,7 @@ class Ctx:
         self.samples = []
         self.assumptions = []
         self.extra = {}
-        self.replay_dir = os.path.join(VERIF, "replays", pid)
+        self.replay_dir = os.path.join(OUT, "replays", pid)
 
     # ------------------------------------------------------------------ build
     def vdrive_path(self, race=False):
@@ -92,6 +93,14 @@ class Ctx:
         env = dict(os.environ)
         env.update(GOENV)
         hdir = os.path.join(VERIF, "harness")
+        if REPO != "/repo":
+            # (evaluation of a changed copy of the repository: build a copy of the harness whose replace points at it)
+            h2 = os.path.join(self.scratch, "harness-src")
+            if not os.path.exists(h2):
+                shutil.copytree(hdir, h2, ignore=shutil.ignore_patterns("go.sum"))
+                gm = open(os.path.join(h2, "go.mod")).read().replace("=> /repo", "=> " + REPO)
+                open(os.path.join(h2, "go.mod"), "w").write(gm)
+            hdir = h2
         gosum = os.path.join(hdir, "go.sum")
         if not os.path.exists(gosum):
             shutil.copy(os.path.join(REPO, "go.sum"), gosum)
@@ -402,8 +411,8 @@ class Ctx:
             "wall_s": round(time.time() - self.t0, 2),
             "violations": len(self.violations),
         }
-        os.makedirs(os.path.join(VERIF, "evidence"), exist_ok=True)
-        with open(os.path.join(VERIF, "evidence", "%s.json" % self.pid), "w") as g:
+        os.makedirs(os.path.join(OUT, "evidence"), exist_ok=True)
+        with open(os.path.join(OUT, "evidence", "%s.json" % self.pid), "w") as g:
             json.dump(ev, g, indent=1, sort_keys=True)
             g.write("\n")
         return 1 if self.violations else 0
